@@ -52,7 +52,12 @@ CHECKS = {
               "bounds of a live block, cell initialised, block owned by the kernel for writes, no store into an input tensor, int32 "
               "range of each integer operation, non-negative allocation sizes - discharged by z3 for all well-formed inputs and all "
               "initial capacities >= 1 (symbolic), plus return value 0, loop unwinding assertion and the hand-back clauses (arrays "
-              "live and at least as long as the structure they describe, stored cells initialised)."),
+              "live and at least as long as the structure they describe, stored cells initialised). In addition an inductive append "
+              "step: the growth fragments the real write_crd_assembly / write_pos_allocation emit for all 34 layer shapes of order <= 3 "
+              "are executed once from an arbitrary valid state (cursor, capacity and dense extents anywhere in int32) and must keep "
+              "the array long enough for the next writes without overflow - this reaches sizes no bounded kernel run can (it is what "
+              "reports known finding F6). Witnesses of verified paths are validated against gcc- and clang-ASan builds of the emitted C "
+              "and LLVM."),
         design="DESIGN.md §4 C05"),
     "C07": dict(
         level="translation_validation", engine="E1-KSE + E3-trees",
@@ -63,7 +68,8 @@ CHECKS = {
               "module the real pipeline returns must be exactly peephole(unoptimised). (b) Every well-typed expression tree over the "
               "property's literal set and typed variables (exhaustive depth 1, depth 2 exhaustive in thorough / every 25th in quick, "
               "depth-3 spines sampled) and statement trees (depth <=2 exhaustive, depth 3 sampled) is compared with its optimised form "
-              "for all environments in which the original is safe; counterexamples are replayed through the real LLVM JIT."),
+              "for all environments in which the original is safe; counterexamples are replayed through the real LLVM JIT. The 76 "
+              "depth-1 float trees the peephole changes are additionally checked bit-precisely in Float64 (fp.eq, finite inputs)."),
         design="DESIGN.md §4 C07",
         note=TRUST + " Doubles are compared over the rationals. Known finding F11 (float-literal identity rules narrow double arithmetic to int32) is listed in known_findings.json."),
     "C16": dict(
